@@ -130,6 +130,14 @@ def run_ordering(n):
         fields = [ir_data.Field(name=ir_data.NameDefinition(name=ir_data.Word(text="f%d" % i),
                                                             canonical_name=ir_data.CanonicalName(module_file="m.emb", object_path=["S", "f%d" % i])))
                   for i in range(n)]
+        # any mix of physical and virtual fields (the order must not depend on the kind)
+        mask = c.choose(2 ** n, "virtual_mask") if n <= 4 else 0
+        holder["mask"] = mask
+        for i in range(n):
+            if (mask >> i) & 1:
+                fields[i].read_transform = ir_data.Expression(constant=ir_data.NumericConstant(value="1"))
+            else:
+                fields[i].location = ir_data.FieldLocation()
         structure = ir_data.Structure(field=fields)
         tdef = ir_data.TypeDefinition(structure=structure)
         deps = {node(i): SymSet([(node(j), E[i][j]) for j in range(n)]) for i in range(n)}
@@ -173,7 +181,8 @@ def run_ordering(n):
         if r == "unsat":
             out["discharged"] += 1
         elif r == "sat":
-            out["candidates"].append({"kind": "ordering", "n": n, "matrix": matrix(m), "what": "order %s violates a dependency or needlessly departs from the source order" % order})
+            out["candidates"].append({"kind": "ordering", "n": n, "matrix": matrix(m), "virtual_mask": holder.get("mask", 0),
+                                      "what": "order %s violates a dependency or needlessly departs from the source order" % order})
         else:
             out["unknown"] += 1
 
@@ -197,6 +206,35 @@ def emb_for(matrix):
     return "\n".join(lines) + "\n"
 
 
+def emb_for2(matrix, variant):
+    """Physical fields whose dependencies run through a field location, an
+    existence condition or an argument of a parameterised type."""
+    n = len(matrix)
+    lines = ['[$default byte_order: "LittleEndian"]', "struct Par(p: UInt:8):", "  0 [+1]  UInt  q",
+             "struct Graph:", "  0 [+1]  UInt  base"]
+    mech = lambda i, j: (i + 2 * j + variant) % 3
+    is_par = [any(matrix[i][j] and mech(i, j) == 2 for j in range(n)) for i in range(n)]
+    ref = lambda j: ("f%d.q" % j) if is_par[j] else ("f%d" % j)
+    for i in range(n):
+        loc, cond, param = [], [], None
+        for j in range(n):
+            if matrix[i][j]:
+                if mech(i, j) == 2 and param is None:
+                    param = ref(j)
+                elif mech(i, j) == 1:
+                    cond.append("%s == 0" % ref(j))
+                else:
+                    loc.append(ref(j))
+        start = " + ".join(["%d" % (1 + i)] + loc)
+        ty = "Par(%s)" % param if param else "UInt"
+        if cond:
+            lines.append("  if %s:" % " && ".join(cond))
+            lines.append("    %s [+1]  %s  f%d" % (start, ty, i))
+        else:
+            lines.append("  %s [+1]  %s  f%d" % (start, ty, i))
+    return "\n".join(lines) + "\n"
+
+
 def py_cyclic(matrix):
     n = len(matrix)
     R = [row[:] for row in matrix]
@@ -207,8 +245,8 @@ def py_cyclic(matrix):
     return any(R[i][i] for i in range(n))
 
 
-def front_end_on(matrix):
-    text = emb_for(matrix)
+def front_end_on(matrix, variant=-1):
+    text = emb_for(matrix) if variant < 0 else emb_for2(matrix, variant)
     from compiler.front_end import emboss_front_end
     real = emboss_front_end._find_in_dirs_and_read([common.REPO])
 
@@ -219,15 +257,24 @@ def front_end_on(matrix):
     cyc = any("Dependency cycle" in m.message for grp in (errors or []) for m in grp)
     order = None
     if ir is not None:
-        st = ir.module[0].type[0].structure
+        st = [t for t in ir.module[0].type if t.name.name.text == "Graph"][0].structure
         names = [st.field[i].name.name.text for i in st.fields_in_dependency_order]
         order = [x for x in names if x.startswith("f")]
     return cyc, bool(errors), order, text
 
 
-def _fe_job(matrix):
+def _fe_job(job):
+    matrix, variant = job if isinstance(job, tuple) else (job, -1)
+    r = _fe_job1(matrix, variant)
+    if r is not None:
+        r["variant"] = variant
+        r["text"] = emb_for(matrix) if variant < 0 else emb_for2(matrix, variant)
+    return r
+
+
+def _fe_job1(matrix, variant):
     try:
-        cyc, rejected, order, text = front_end_on(matrix)
+        cyc, rejected, order, text = front_end_on(matrix, variant)
     except RecursionError:
         return {"matrix": matrix, "problem": "front end exceeded the recursion limit (missed cycle)"}
     except Exception as e:  # pylint: disable=broad-except
@@ -271,13 +318,18 @@ def replay(c):
                 want.add(frozenset(node(j) for j in range(n) if (R[i][j] and R[j][i]) or j == i))
         return set(comps) != want, "real _find_cycles returned %s, strongly connected components with a cycle are %s" % (
             sorted(sorted(x[2] for x in comp) for comp in comps), sorted(sorted(x[2] for x in comp) for comp in want))
-    r = _fe_job(m)
+    r = _fe_job((m, c.get("variant", -1))) if c.get("variant") is not None else _fe_job(m)
     if r is not None:
-        return True, r["problem"] + " on\n" + emb_for(m)
+        return True, r["problem"] + " on\n" + r.get("text", emb_for(m))
     # unit-level replay with plain sets
     fields = [ir_data.Field(name=ir_data.NameDefinition(name=ir_data.Word(text="f%d" % i),
                                                         canonical_name=ir_data.CanonicalName(module_file="m.emb", object_path=["S", "f%d" % i])))
               for i in range(n)]
+    for i in range(n):
+        if (c.get("virtual_mask", 0) >> i) & 1:
+            fields[i].read_transform = ir_data.Expression(constant=ir_data.NumericConstant(value="1"))
+        else:
+            fields[i].location = ir_data.FieldLocation()
     structure = ir_data.Structure(field=fields)
     deps = {node(i): {node(j) for j in range(n) if m[i][j]} for i in range(n)}
     try:
@@ -310,7 +362,7 @@ def main(tier):
         results = pool.map(_job, jobs)
         # translator validation through the whole front end: every 3-node graph (quick: a seeded sample)
         mats = [[[(bits >> (i * 3 + j)) & 1 for j in range(3)] for i in range(3)] for bits in range(512)]
-        fe = pool.map(_fe_job, mats)
+        fe = pool.map(_fe_job, [(m, v) for m in mats for v in (-1, 0, 1, 2)], chunksize=8)
     tot = {"paths": 0, "obligations": 0, "discharged": 0}
     cands = []
     detail = {}
@@ -343,8 +395,8 @@ def main(tier):
         else:
             nfe += 1
             if nfe <= 3:
-                rep.violation({"kind": "front-end", "n": 3}, "C15 whole front end on graph %s: %s\n%s" % (r["matrix"], r["problem"], emb_for(r["matrix"])),
-                              {"kind": "ordering", "n": 3, "matrix": r["matrix"], "what": r["problem"]})
+                rep.violation({"kind": "front-end", "n": 3}, "C15 whole front end on graph %s: %s\n%s" % (r["matrix"], r["problem"], r["text"]),
+                              {"kind": "ordering", "n": 3, "matrix": r["matrix"], "what": r["problem"], "variant": r["variant"]})
     rep.sample({"harness": "cycles", "n": 3, "symbolic": "3x3 Boolean edge matrix", "oracle": "returned components == SCCs i with reach(i,i) (Warshall closure)"})
     rep.sample({"harness": "ordering", "n": 4, "assumption": "acyclic (rank function)", "oracle": "permutation; every edge i->j has pos(j) < pos(i); identity whenever the identity is topological"})
     rep.sample(list(detail)[:6])
@@ -356,7 +408,7 @@ def main(tier):
         "functions_encoded": ["dependency_checker._find_cycles", "dependency_checker._find_dependency_ordering_for_fields_in_structure",
                               "whole front end (glue.parse_emboss_file) on rendered 3-node graphs: _find_dependencies, find_dependency_cycles, set_dependency_order"],
         "bounds": {"nodes": "cycles N <= %d, ordering N <= %d (all graphs)" % (4 if tier == "thorough" else 3, 5 if tier == "thorough" else 4),
-                   "front end": "every 3-node graph of virtual fields",
+                   "front end": "every 3-node graph, rendered four ways (virtual fields; physical fields depending through locations, existence conditions and type-parameter arguments)",
                    "outside": "import cycles (same _find_cycles on the module graph); dependencies through enum values and parameters in the rendered modules"},
     })
     return rep.finish()
